@@ -492,50 +492,26 @@ func ruleC15Hello(c *Ctx) {
 				}
 				continue
 			}
-			// value (possibly converted) must be compared with 2 and 3 on dominating branches
-			v := stripValue(st.Val)
-			seen := map[int64]bool{}
+			// the values that can reach the store: decided by a value-set analysis over the branches that compare the value
+			// (through conversions) with constants, the phis, and the results of a validating helper
+			ia := &intSetAnalysis{inPkg: c.InPkg}
+			vs := ia.at(st.Val, st.Block(), 0)
+			// the refusing side: an error reply on a way that does not reach the store
 			errorExit := false
-			for _, d := range fn.Blocks {
-				ifi, isIf := d.Instrs[len(d.Instrs)-1].(*ssa.If)
-				if !isIf || !reachableFrom(d, nil)[st.Block()] {
+			reaches := reachableFrom(fn.Blocks[0], nil)
+			for _, b := range fn.Blocks {
+				if !(reaches[b] || b == fn.Blocks[0]) || b == st.Block() || reachableFrom(b, nil)[st.Block()] {
 					continue
 				}
-				bo, ok := ifi.Cond.(*ssa.BinOp)
-				if !ok {
-					continue
-				}
-				hit := false
-				for _, pair := range [][2]ssa.Value{{bo.X, bo.Y}, {bo.Y, bo.X}} {
-					if k, isC := constInt(pair[1]); isC && (stripValue(pair[0]) == v || pair[0] == st.Val) {
-						hit = true
-						switch bo.Op {
-						case token.EQL, token.NEQ:
-							seen[k] = true
-						case token.LSS, token.GTR, token.LEQ, token.GEQ:
-							seen[k] = true
-							seen[-k-1000] = true
-						}
-					}
-				}
-				if !hit {
-					continue
-				}
-				// the refusing side: an error reply that cannot reach the store
-				for b := range reachableFrom(d, nil) {
-					if reachableFrom(b, nil)[st.Block()] || b == st.Block() {
-						continue
-					}
-					for _, in2 := range b.Instrs {
-						if c.isErrorReplyStore(in2) {
-							errorExit = true
-						}
+				for _, in2 := range b.Instrs {
+					if c.isErrorReplyStore(in2) {
+						errorExit = true
 					}
 				}
 			}
-			bounded := ((seen[2] && seen[3]) || len(seen) >= 3) && errorExit
+			bounded := vs.subsetOf(2, 3) && errorExit
 			if bounded {
-				c.S.OK("R-C15-hello", key, c.Pos(st.Pos()), "the stored value is compared with the supported versions on dominating branches")
+				c.S.OK("R-C15-hello", key, c.Pos(st.Pos()), fmt.Sprintf("the stored value can only be one of %v; other versions are answered with an error", vs.list()))
 			} else {
 				c.S.Bad("R-C15-hello", key, c.Pos(st.Pos()), fmt.Sprintf("%s stores a client-supplied protocol version without restricting it to 2 or 3: HELLO 4 is accepted and the connection then speaks neither protocol consistently", fnName(fn)))
 			}
